@@ -403,7 +403,7 @@ func GenSched(r *sim.Rand, tier string) sim.Script {
 		var ops []Op
 		local := nl
 		for i := 1 + r.Intn(5); i > 0; i-- {
-			switch r.Weighted([]int{10, 2, 2, 2}) {
+			switch r.Weighted([]int{10, 2, 2, 2, 2}) {
 			case 0:
 				ops = append(ops, Op{K: "write", L: r.Intn(local)})
 			case 1:
@@ -413,6 +413,8 @@ func GenSched(r *sim.Rand, tier string) sim.Script {
 				local++
 			case 3:
 				ops = append(ops, Op{K: "check"})
+			case 4:
+				ops = append(ops, Op{K: "dump"})
 			}
 		}
 		s.Tasks = append(s.Tasks, ops)
